@@ -31,6 +31,7 @@ func c18Legs(tier string, merge bool) []pairLeg {
 		add("hostile", HostileDocs())
 		add("deep", Deep(true))
 		add("mixed", Mixed())
+		add("hostile-arrays", HostileArrays())
 		add("E2", EditStates(2, 1500))
 	} else {
 		add("U4", U(4))
@@ -42,6 +43,7 @@ func c18Legs(tier string, merge bool) []pairLeg {
 		add("hostile", thin(HostileDocs(), 220))
 		add("deep", Deep(true))
 		add("mixed", Mixed())
+		add("hostile-arrays", HostileArrays())
 		add("E1", EditStates(1, 300))
 	}
 	return legs
